@@ -13,7 +13,7 @@ INFO = ("YApi (TLA+): reference semantics of peek/next/load over an abstract eve
 
 
 def run(ck):
-    ck.rule = ("texts: up to 3 (quick) / 12 (thorough) pool texts per (stream length <= 12, ending) + random longer ones; histories: all of length <= 7 for short streams, "
+    ck.rule = ("texts: up to 3 (quick) / 8 (thorough) pool texts per (stream length <= 12, ending) + random longer ones; histories: all of length <= 7 for short streams, "
                "k in {0,1,2} peeks before every next, single/double peeks at every position, random; both back-ends; distinct = (text, history) pairs executed")
     ck.assumptions = ["the base of the comparison is plain iteration on the string back-end"]
     m = props.tlc_cached(ck, "MC_Api", "MC_Api", ["YApi.tla"], workers=4)
@@ -27,7 +27,7 @@ def run(ck):
         raise ToolError("recorder died: %s" % crash)
     ck.evaluations += s["histories"] + s["pushes"]
     ck.distinct += s["histories"]
-    j = props.judge(ck, "Trace_Api", out)
+    j = props.judge(ck, "Trace_Api", out, chunk=150000, start_marker='{"base":', timeout=7200)
     ck.traces += j.judged
     if j.rejects:
         recs = read_ndjson(out)
